@@ -70,7 +70,7 @@ NONDET = {"os/cryptorand", "os/getpid", "math/random", "math/rng", "math/rng-int
           "math/rng-buffer", "gensym", "hash"}
 # results that are process identity / randomness: only their type is recorded (keeps histories reproducible)
 OPAQUE = ["os/getpid", "os/cryptorand"]
-THREAD_HOWS = ["ev/thread", "ev/thread-n", "ev/do-thread", "ev/spawn-thread"]
+THREAD_HOWS = ["ev/thread", "ev/thread-n", "ev/do-thread", "ev/spawn-thread", "ev/thread-fiber", "ev/thread-fiber-n"]
 
 
 def jlit(x):
